@@ -92,6 +92,8 @@ def module_state():
     for name in sorted(sys.modules):
         if not name.startswith('regions.') or '.tests' in name:
             continue
+        if name == 'regions._utils.verif':
+            continue            # the event buffer of our own guarded tracing hooks is not library state
         mod = sys.modules[name]
         if mod is None:
             continue
